@@ -131,6 +131,16 @@ func evaluate(p *pg.Prog, vals []pg.Val, text string, vars []interface{}, number
 		problems = append(problems, "placeholder-sequence: placeholders are not the dialect's sequence 1..n read left to right")
 	}
 
+	// (1b) no named argument left unexpanded: every @name of the alphabet's
+	// templates has a value, so "@word" outside quoted literals means a name
+	// was not replaced by a placeholder
+	for i := 0; i+1 < len(ts); i++ {
+		if ts[i].kind == tPunct && ts[i].text == "@" && ts[i+1].kind == tWord {
+			problems = append(problems, fmt.Sprintf("name-left-in-text: the named argument @%s was not replaced by a placeholder", ts[i+1].text))
+			break
+		}
+	}
+
 	// (2) no marker of any argument in the text
 	for i, v := range vals {
 		for _, m := range v.Markers {
